@@ -19,7 +19,7 @@
    spins (the caller cannot proceed until another worker acts) */
 enum {
   /* spin lock */
-  MVS_SPIN_LOCK = 100, MVP_SPIN_TRY = 101, MVP_SPIN_UNLOCK = 102,
+  MVS_SPIN_LOCK = 100, MVP_SPIN_TRY = 101, MVP_SPIN_UNLOCK = 102, MVP_SPIN_UNLOCKED = 103,
   /* work stealing queue */
   MVP_Q_PUSH_A = 200, MVP_Q_PUSH_B = 201, MVP_Q_PUSH_MOVE = 202, MVP_Q_PUSH_C = 203, MVP_Q_PUSH_D = 204,
   MVP_Q_POP_A = 210, MVP_Q_POP_B = 211, MVP_Q_POP_C = 212, MVP_Q_POP_SLOW = 213,
